@@ -66,7 +66,56 @@ func treeContains(v ssa.Value, pred func(ssa.Value) bool, depth int) bool {
 //
 // and returns the stride s and the index L of the sentinel.
 func scanLemma(c *Ctx, fn *ssa.Function, table string, tabLen int64) (stride, sentinel int64, why string, ok bool) {
-	loops, _ := findLoops(fn)
+	stride, sentinel, _, why, ok = scanLemmaIn(c, fn, table, tabLen)
+	return
+}
+
+// scanLemmaIn also accepts the scan loop in an unexported helper that fn calls with the table as
+// an argument (the guard then has to dominate the call); helper is that function, or nil.
+func scanLemmaIn(c *Ctx, fn *ssa.Function, table string, tabLen int64) (stride, sentinel int64, helper *ssa.Function, why string, ok bool) {
+	type cand struct {
+		loopFn  *ssa.Function
+		isTable func(v ssa.Value) bool
+		anchor  *ssa.BasicBlock // the block of fn the guard must dominate (nil: the loop header)
+	}
+	cands := []cand{{fn, func(v ssa.Value) bool { return isLoadOfTable(v, table) }, nil}}
+	for _, b := range fn.Blocks {
+		for _, ins := range b.Instrs {
+			call, isCall := ins.(*ssa.Call)
+			if !isCall {
+				continue
+			}
+			h := call.Common().StaticCallee()
+			if h == nil || h.Blocks == nil || h.Object() == nil || h.Object().Exported() || h.Pkg != fn.Pkg {
+				continue
+			}
+			for i, a := range call.Common().Args {
+				if isLoadOfTable(a, table) && i < len(h.Params) {
+					prm := h.Params[i]
+					cands = append(cands, cand{h, func(v ssa.Value) bool { return v == ssa.Value(prm) }, call.Block()})
+				}
+			}
+		}
+	}
+	why = "no scan loop of the expected shape found"
+	for _, cd := range cands {
+		st, se, w, k := scanLemmaOne(c, fn, cd.loopFn, cd.isTable, cd.anchor, table, tabLen)
+		if k {
+			if cd.loopFn != fn {
+				helper = cd.loopFn
+			}
+			return st, se, helper, "", true
+		}
+		if w != "no scan loop of the expected shape found" {
+			why = w
+			stride, sentinel = st, se
+		}
+	}
+	return stride, sentinel, nil, why, false
+}
+
+func scanLemmaOne(c *Ctx, fn, loopFn *ssa.Function, isTable func(v ssa.Value) bool, anchor *ssa.BasicBlock, table string, tabLen int64) (stride, sentinel int64, why string, ok bool) {
+	loops, _ := findLoops(loopFn)
 	for _, li := range loops {
 		// counter: header phi with init 0 and step +s
 		var counter *ssa.Phi
@@ -122,7 +171,7 @@ func scanLemma(c *Ctx, fn *ssa.Function, table string, tabLen int64) (stride, se
 				continue
 			}
 			ia, isIA := ld.X.(*ssa.IndexAddr)
-			if !isIA || !isLoadOfTable(ia.X, table) {
+			if !isIA || !isTable(ia.X) {
 				continue
 			}
 			add, isAdd := ia.Index.(*ssa.BinOp)
@@ -183,7 +232,11 @@ func scanLemma(c *Ctx, fn *ssa.Function, table string, tabLen int64) (stride, se
 			if bo.Op == token.GEQ {
 				guardSucc = b.Succs[1]
 			}
-			if len(guardSucc.Preds) == 1 && guardSucc.Dominates(li.header) {
+			target := li.header
+			if anchor != nil {
+				target = anchor
+			}
+			if len(guardSucc.Preds) == 1 && guardSucc.Dominates(target) {
 				sentinel = tabLen - off
 				if sentinel%stride != 0 {
 					return stride, sentinel, fmt.Sprintf("sentinel index %d is not a multiple of the stride %d", sentinel, stride), false
@@ -207,11 +260,14 @@ func ephemerisLemmas(c *Ctx, r *Report, rule string) lemmaSet {
 		if fn == nil {
 			continue
 		}
-		stride, sentinel, why, ok := scanLemma(c, fn, t[1], e.tabLen[t[1]])
+		stride, sentinel, helper, why, ok := scanLemmaIn(c, fn, t[1], e.tabLen[t[1]])
 		construct := fmt.Sprintf("sentinel-guarded scan of %s in %s", t[1], t[0])
 		if ok {
 			r.ok(rule, construct, c.fnPos(fn), fmt.Sprintf("scan with stride %d breaks at the latest at index %d, which the dominating guard compares against; later uses index at most %d", stride, sentinel, sentinel))
 			ls["scan|"+t[0]+"|"+t[1]] = fmt.Sprintf("%d|%d", stride, sentinel)
+			if helper != nil {
+				ls["scanhelper|"+t[0]+"|"+t[1]] = fname(helper)
+			}
 		} else {
 			r.bad(rule, construct, c.fnPos(fn), "the scan over the breakpoint table is not (recognisably) protected by a comparison with its last breakpoint: "+why)
 		}
@@ -316,7 +372,11 @@ func lemmaClass(c *Ctx, r *Report, s tableSite, ls lemmaSet) string {
 				idx = add.X
 			}
 		}
-		if _, ok := idx.(*ssa.Phi); ok && k >= 0 && k <= stride && sentinel < e.tabLen[s.table] {
+		_, isCounter := idx.(*ssa.Phi)
+		if call, isCall := idx.(*ssa.Call); isCall && call.Common().StaticCallee() != nil && fname(call.Common().StaticCallee()) == ls["scanhelper|"+fn+"|"+s.table] {
+			isCounter = true // the counter as returned by the scan helper
+		}
+		if isCounter && k >= 0 && k <= stride && sentinel < e.tabLen[s.table] {
 			return fmt.Sprintf("PROVEN-UNDER(R08.6 scan lemma: counter <= %d, offset %d, table length %d)", sentinel-stride, k, e.tabLen[s.table])
 		}
 	}
